@@ -383,13 +383,12 @@ func c18spaceFor(tier string) c18space {
 		ports:   []string{"", "53", "5353", "65535"},
 		dials:   []string{"", "192.0.2.7", "192.0.2.7:8853", "2001:db8::7", "[2001:db8::7]:8853", "dial.example.net", "dial.example.net:8853"},
 		paths:   []string{"", "/dns-query"},
-		vias:    []string{""},
+		vias:    []string{"", "socks5", "bootstrap"},
 	}
 	if tier == "thorough" {
 		sp.schemes = append(sp.schemes, "ftp")
 		sp.hosts = append(sp.hosts, "192.0.2.1", "2001:db8::1", "2001:db8:0:0:0:0:0:1", "[2001:DB8::1]", "DNS.Example.ORG", "localhost")
 		sp.ports = append(sp.ports, "1", "443", "853", "65536")
-		sp.vias = append(sp.vias, "socks5", "bootstrap")
 		sp.dials = append(sp.dials, "192.0.2.7:53", "2001:db8:0:0:0:0:0:7", "[2001:db8::7]:65535", "Dial.Example.NET", "dial.example.net:1")
 	}
 	return sp
